@@ -226,17 +226,22 @@ def r4(ck):
         if s["k"] == "assign" and s["rv"]["k"] == "agg" and s["rv"].get("adt") == APPLY_CONFIG:
             fields = s["rv"]["fields"]
             e = df.operand_expr(cmd_push, s["rv"]["ops"][fields.index("fuzz")])
+            # the options may reach cmd_push as a struct the caller filled in: look at what the callers put there
+            srcs = df.param_field_sources(prog, cmd_push, e) or [(cmd_push, e)]
             # whatever the spelling (combinators, match, if let): the value is either parsed from --fuzz or the constant 0, nothing else
             nodes = []
 
-            def deep(x, seen, depth=0):
+            def deep(host, x, seen, depth=0):
                 for y in df.walk(x):
                     nodes.append(y)
-                    if isinstance(y, tuple) and y and y[0] == "local" and y[1] not in seen and depth < 6:
-                        seen.add(y[1])
-                        for dx in df.all_def_exprs(cmd_push, y[1]):
-                            deep(dx, seen, depth + 1)
-            deep(e, set())
+                    if isinstance(y, tuple) and y and y[0] == "local" and (host.id, y[1]) not in seen and depth < 6:
+                        seen.add((host.id, y[1]))
+                        for dx in df.all_def_exprs(host, y[1]):
+                            deep(host, dx, seen, depth + 1)
+            for host, x in srcs:
+                deep(host, x, set())
+            if srcs != [(cmd_push, e)]:
+                e = srcs[0][1]
             has_opt = any(df.is_call(x, "getopts::Matches::opt_str") and any(df.is_const(a, "fuzz") for a in x[2]) for x in nodes)
             has_parse = any(df.is_call(x, "::parse") or df.is_call(x, "FromStr>::from_str") or
                             (isinstance(x, tuple) and x and x[0] == "closure") for x in nodes)
